@@ -407,6 +407,24 @@ fn eval_cond(c: &Cond, ids: &[(String, Yaml)], doc: &Yaml) -> R<Tri> {
                 },
             }
         }
+        Cond::CmpFF(a, kind, op, b) => {
+            let m = if *kind == "int" { Mod::Int } else { Mod::Flt };
+            match spec_find(doc, a)? {
+                None => Tri::M,
+                Some(x) => match cast_num(&x, m) {
+                    None => Tri::F,
+                    Some(xv) => match spec_find(doc, b)? {
+                        None => Tri::M,
+                        Some(y) => match cast_num(&y, m) {
+                            None => Tri::F,
+                            Some(yv) => {
+                                if num_rel(op, &xv, &yv) { Tri::T } else { Tri::F }
+                            }
+                        },
+                    },
+                },
+            }
+        }
         Cond::StrEq(a, b) => {
             let text = |v: &Yaml| -> Option<String> { if let Yaml::String(s) = v { Some(s.clone()) } else { scalar_text(v) } };
             match spec_find(doc, a)? {
